@@ -211,7 +211,9 @@ def gen_value(rng, a, valid=True):
     if vals:
         return rng.choice(vals)
     n = rng.range(max(mn, 1), max(mn, 1, mx))
-    return ''.join(rng.choice(WORDCH) for _ in range(n))
+    # scalar strings also carry characters that mean something to the tokenizer ('=', '-', ...)
+    alpha = WORDCH + '==-+/#(!' if a.kind == 's' else WORDCH
+    return ''.join(rng.choice(alpha) for _ in range(n))
 
 
 class Use:
@@ -414,7 +416,7 @@ def spell(rng, uses, args, abbr=True, stats=None):
                     if rng.chance(1, 2) and v != '':
                         words.append(grp + uses[j].arg.short + v)
                         note('group+glued')
-                    elif not v.startswith('-') and v != '':
+                    elif not v.startswith('-') and v != '' and v not in ('(', ')', '!'):
                         words += [grp + uses[j].arg.short, v]
                         note('group+sep')
                     else:
@@ -444,7 +446,7 @@ def spell(rng, uses, args, abbr=True, stats=None):
                 k = rng.range(1, len(rest))
                 chunks.append(a.sep.join(rest[:k]))
                 rest = rest[k:]
-            if any(ch.startswith('-') or ch == '' for ch in chunks):
+            if any(ch.startswith('-') or ch == '' or ch in ('(', ')', '!') for ch in chunks):
                 # a free value may not start with a dash: keep the whole list behind the key
                 first, chunks = vals, []
             text = a.sep.join(first)
@@ -474,7 +476,8 @@ def _key_word(rng, a, args, abbr, note):
 
 def _value_words(rng, a, args, abbr, text, note):
     forms = []
-    dash = text.startswith('-')
+    # a value that may not stand as a word of its own: leading dash, or exactly one control character
+    dash = text.startswith('-') or text in ('(', ')', '!')
     if a.short:
         if not dash and text != '':
             forms.append(('short-sep', ['-' + a.short, text]))
